@@ -83,6 +83,10 @@ func (w *World) Name(e Ev) string {
 		return fmt.Sprintf("V%d:genesis>a2", e.Val)
 	case "voteB":
 		return fmt.Sprintf("V%d:genesis>b2", e.Val)
+	case "wstep":
+		return "WALLET-STEP"
+	case "rescan":
+		return "RESCAN"
 	}
 	return "RESTART"
 }
@@ -170,6 +174,9 @@ type Inst struct {
 	Wallet   *wallet.Wallet
 	// RescanIgnored: a rescan request was not taken up within the watchdog time
 	RescanIgnored bool
+	// StepHung: the stepped updater neither finished a step nor parked within the watchdog time
+	StepHung bool
+	asleep   bool
 }
 
 func (w *World) newWallet(in *chainlab.Inst, db *crashkv.DB) (*wallet.Wallet, error) {
